@@ -292,7 +292,10 @@ def run_property(prop, tier, seed, impl="py", only=None):
                                     "symbolic": "proved for all inputs"})
             if r["fails"]:
                 f = r["fails"][0]
-                if h.idealised:
+                if h.id in rep.tainted:
+                    rep.out("  consequence: %s is proved against the contract of a callee whose own obligation is "
+                            "refuted in this run; end-to-end it fails natively, e.g. on %s" % (tag, json.dumps(f["inputs"])[:300]))
+                elif h.idealised:
                     # proved over the reals, fails in binary64: a genuine numeric violation
                     p2 = write_replay(prop, h.id, cname, "native-failure", f["inputs"],
                                       {"note": "obligation proved over the reals; native binary64 run fails",
